@@ -8,6 +8,9 @@ With the honest hint (`none` = what `Fq::sqrt_ratio_zeta(&ONE, &den)` returns ou
 * `compress_complete`: the encode gadget is satisfied for every input pair and outputs exactly what the native encoder
   outputs; `elligator_complete`: the Elligator gadget is satisfied for every input and outputs the affine coordinates
   of the native result;
+* `add_gadget`, `sub_gadget`, `neg_gadget`, `double_gadget`, `select_gadget`, `scalarMul_gadget` (every bit list),
+  `isEq_gadget`: the arithmetic / comparison gadgets compute the group law / decide the coset relation on the values
+  their variables carry;
 * `lazy_*`: forcing the encoding / the element of a lazily evaluated variable, in any order and any number of times,
   emits at most one gadget and never changes a value once it is defined.
 They use `sarkar_contract` (the table-driven routine meets its contract, C09.ark_contract); no premise is left.
@@ -71,6 +74,85 @@ theorem elligator_complete (r0 : ℕ) :
   have b1 : (ellF r0 f v != 0) = true := by simpa using hF
   have b2 : (ellT r0 f v != 0) = true := by simpa using hT
   exact ⟨_, P, hc, hr, by simp [b1, b2], hxx, hyy⟩
+
+/-! ### arithmetic gadgets: the affine law on the coordinates is the group law (for every pair of representatives) -/
+
+/-- `AffRep a P`: the pair of field values carried by an `ElementVar` is the point P -/
+def AffRep (a : ℕ × ℕ) (P : E) : Prop := (a.1 : Fq) = P.x ∧ (a.2 : Fq) = P.y
+
+/-- add / add-assign / add-constant gadgets (`Ext.addAffine` on the carried values) -/
+theorem add_gadget {a b : ℕ × ℕ} {P Q : E} (ha : AffRep a P) (hb : AffRep b Q) : AffRep (Ext.addAffine a b) (P + Q) :=
+  addAffine_cast ha hb
+
+/-- negate gadget -/
+theorem neg_gadget {a : ℕ × ℕ} {P : E} (ha : AffRep a P) : AffRep (fneg q a.1, a.2) (-P) := by
+  constructor
+  · rw [cast_fneg, ha.1]; rfl
+  · rw [ha.2]; rfl
+
+/-- sub / sub-assign / sub-constant gadgets -/
+theorem sub_gadget {a b : ℕ × ℕ} {P Q : E} (ha : AffRep a P) (hb : AffRep b Q) :
+    AffRep (Ext.addAffine a (fneg q b.1, b.2)) (P - Q) := by
+  rw [sub_eq_add_neg]; exact add_gadget ha (neg_gadget hb)
+
+/-- double gadget -/
+theorem double_gadget {a : ℕ × ℕ} {P : E} (ha : AffRep a P) : AffRep (Ext.addAffine a a) (2 • P) := by
+  rw [two_nsmul]; exact add_gadget ha ha
+
+/-- conditional select -/
+theorem select_gadget {a b : ℕ × ℕ} {P Q : E} (ha : AffRep a P) (hb : AffRep b Q) (c : Bool) :
+    AffRep (if c then a else b) (if c then P else Q) := by
+  cases c
+  · exact hb
+  · exact ha
+
+/-- the carried values (0, 1) are the identity -/
+theorem identity_affRep : AffRep (0, 1) (0 : E) := ⟨by simp, by simp⟩
+
+/-- **scalar multiplication gadget** (`scalar_mul_le`): for every bit list, of any length, the LSB-first
+double-and-add with select computes `acc + (Σ bᵢ 2ⁱ) • P` -/
+theorem scalarMul_gadget_aux (bits : List Bool) : ∀ (res mult : ℕ × ℕ) (R M : E), AffRep res R → AffRep mult M →
+    AffRep (R1cs.scalarMulLe bits res mult) (R + bitsVal bits • M) := by
+  induction bits with
+  | nil => intro res mult R M hr _; simpa [R1cs.scalarMulLe, bitsVal] using hr
+  | cons b bs ih =>
+    intro res mult R M hr hm
+    unfold R1cs.scalarMulLe
+    simp only []
+    have hm2 := add_gadget hm hm
+    cases b with
+    | true =>
+      have := ih (Ext.addAffine res mult) (Ext.addAffine mult mult) (R + M) (M + M) (add_gadget hr hm) hm2
+      simp only [if_true, bitsVal]
+      convert this using 1
+      rw [add_smul, one_smul, mul_smul, two_smul, smul_add]; abel
+    | false =>
+      have := ih res (Ext.addAffine mult mult) R (M + M) hr hm2
+      simp only [bitsVal, Bool.false_eq_true, if_false, zero_add]
+      convert this using 1
+      rw [mul_smul, two_smul, smul_add]
+
+theorem scalarMul_gadget (bits : List Bool) {a : ℕ × ℕ} {P : E} (ha : AffRep a P) :
+    AffRep (R1cs.scalarMulLe bits (0, 1) a) (bitsVal bits • P) := by
+  have := scalarMul_gadget_aux bits (0, 1) a 0 P identity_affRep ha
+  rwa [zero_add] at this
+
+/-- **equality gadget**: `x₁y₂ = x₂y₁` on the carried values decides equality of group elements (the coset relation),
+for every pair of curve points -/
+theorem isEq_gadget {a b : ℕ × ℕ} {P Q : E} (ha : AffRep a P) (hb : AffRep b Q) :
+    R1cs.isEq a b = true ↔ Point.Coset P Q := by
+  rw [← Point.cross_eq_iff_coset]
+  unfold R1cs.isEq
+  rw [beq_iff_eq]
+  constructor
+  · intro h
+    have := congrArg (Nat.cast : ℕ → Fq) h
+    rw [cast_fmul, cast_fmul, ha.1, ha.2, hb.1, hb.2] at this
+    linear_combination this
+  · intro h
+    apply eq_of_cast_eq (fmul_lt q_pos _ _) (fmul_lt q_pos _ _)
+    rw [cast_fmul, cast_fmul, ha.1, ha.2, hb.1, hb.2]
+    linear_combination h
 
 /-- honest synthesis of the decode gadget: satisfied iff native decoding succeeds, same coordinates -/
 theorem decompress_complete_iff {s : ℕ} (hs : s < q) :
